@@ -89,7 +89,13 @@ impl<T> Receiver<T> {
             {
                 unreachable!()
             }
-            Err(_) if self.rx.is_abandoned() => Err(ChannelClosed),
+            Err(_) if self.rx.is_abandoned() => {
+                // The sender may have pushed its last messages and gone away after the `pop`
+                // above found the ring empty. Look again before reporting the channel as
+                // closed, otherwise those messages are lost together with the receiver.
+                std::sync::atomic::fence(std::sync::atomic::Ordering::Acquire);
+                self.rx.pop().map(Some).map_err(|_| ChannelClosed)
+            }
             Err(_) => Ok(None),
         }
     }
